@@ -109,7 +109,7 @@ Fixpoint powi_loop (wp : Z) (m : mode) (s e n : Z) (k : nat) (res : approx) : ap
   end.
 
 Definition powi_work_precision (p n : Z) : Z :=
-  if p =? 0 then 0 else p + powi_guard_digits_gen no_f32 n p.
+  if p =? 0 then 0 else powi_work_precision_gen no_f32 p (powi_guard_digits_gen no_f32 n p).
 
 (** the part of Context::powi after the sign test: 0 <= n *)
 Definition powi_pos (p : Z) (m : mode) (s e n : Z) : approx :=
@@ -123,7 +123,7 @@ Definition powi_pos (p : Z) (m : mode) (s e n : Z) : approx :=
 Definition powi_asis (p : Z) (m : mode) (s e n : Z) : result approx :=
   if n <? 0 then
     if p =? 0 then Panic UnlimitedPrecision else
-    let rp := p + powi_neg_guard_bits_gen no_f32 p in
+    let rp := powi_neg_precision_gen no_f32 p (powi_neg_guard_bits_gen no_f32 p) in
     let rm := reverse_mode_gen m in
     let pow := powi_pos rp rm s e (- n) in
     rbind (approx_and_then_r pow (fun s' e' => c_repr_div rp rm 1 0 s' e'))
@@ -308,7 +308,7 @@ Definition powf_asis (fuel : nat) (p : Z) (m : mode) (s e ys ye : Z) : result ap
   else if s =? 0 then Ok (AExact 0 0)
   else if s <? 0 then Panic PowerNegativeBase
   else
-    let wp := p + powf_guard_digits_gen O p in
+    let wp := powf_work_precision_gen O p (powf_guard_digits_gen O p) in
     rbind (ln_internal fuel wp m s e false) (fun l =>
     rbind (approx_and_then_r l (fun s' e' => Ok (c_mul wp m s' e' ys ye))) (fun t =>
     rbind (approx_and_then_r t (fun s' e' => exp_internal fuel wp m s' e' false)) (fun r =>
